@@ -9,7 +9,7 @@
 From Coq Require Import ZArith NArith List Bool Permutation Sorted.
 Import ListNotations.
 From Verif Require Import Lib.Corr Lib.Proxy_Order Lib.Proxy_Model Lib.Proxy_Proofs Lib.Proxy_Fail
-  Gen.C06 Model.C03 Proofs.C03_Inst Model.C06 Proofs.C06.
+  Gen.C06 Model.C03 Proofs.C03_Inst Model.C06 Proofs.C06 Proofs.C06_Timer.
 Open Scope Z_scope.
 
 (* The two places where ProxyStore.Series consults the strategy decide alike. *)
@@ -62,6 +62,29 @@ Theorem C06_querier_warn_succeeds : forall lazy batch (scripts : list script),
     /\ (forall s X cs, In s scripts -> sopen_err s = None -> In (X, cs) (presented false (rm_labels []) s) -> In X ls).
 Proof. exact querier_warn_succeeds. Qed.
 Print Assumptions C06_querier_warn_succeeds.
+
+(* The frame-timeout timer of a lazy receiver (handleRecvResponse), with the pause condition and
+   its position regenerated from the source: it is paused after cl.Recv() returned and before the
+   first (possibly blocking) append into the ring buffer, whatever the buffer state. Hence, for
+   every timeout >= 1 tick, every buffer size, every batching of the store's responses and EVERY
+   schedule of the consumer (it may stall for any time between pops): a store whose every Recv
+   returns within the timeout is never cancelled — a slow reader cannot turn a healthy store into
+   a failed one (which under the warn strategy would lose its remaining series). *)
+Theorem C06_lazy_receiver_no_spurious_timeout : forall (A : Type) (T cap : nat) (frames : list (list A)) st,
+  (1 <= T)%nat -> reach T cap timer_pause_cond (init frames) st -> cancelled st = false.
+Proof. exact lazy_receiver_no_spurious_timeout. Qed.
+Print Assumptions C06_lazy_receiver_no_spurious_timeout.
+
+Theorem C06_timer_pause_position : timer_pause_after_recv_before_append = true /\ forall b, timer_pause_cond b = true.
+Proof. exact (conj source_pause_position source_pauses_always). Qed.
+Print Assumptions C06_timer_pause_position.
+
+(* Pausing only when the buffer is already full before queuing is NOT enough: a frame of two
+   responses, a buffer of one and a stalled consumer get a healthy store cancelled. *)
+Theorem C06_pause_only_when_full_refuted :
+  exists st, reach 1 1 (fun full : bool => full) (init [[0; 1]%nat]) st /\ cancelled st = true.
+Proof. exact pause_only_when_full_refuted. Qed.
+Print Assumptions C06_pause_only_when_full_refuted.
 
 (* Non-vacuity: three stores; the first fails after one frame, the second cannot be
    opened, the third is healthy. ABORT fails; WARN succeeds with both warnings and with
